@@ -42,3 +42,19 @@ Theorem C05_empty_list_admits_nobody : forall t fp,
   tr_allowed t = Some [] -> apply_rule (Some (rule_of_toml t)) fp <> Allow.
 Proof. exact Fs_proofs.empty_list_admits_nobody. Qed.
 Print Assumptions C05_empty_list_admits_nobody.
+
+(* tie to the code: the definitions regenerated from CertificateAuth (_find_matching_rule, _candidate_locations, process_request)
+   and utils.url.canonical_path_segments compute the model's functions *)
+From NV Require Gen.PyGen Equiv.Equiv.
+Theorem C05_code_tie : forall (extract : str -> str) rules url ip fp path (unq : str -> str),
+  PyGen.gen_certauth_process extract candidates (find_rule rules) url ip fp = Equiv.verdict_pair (first_denial rules (candidates (extract url)) fp) /\
+  PyGen.gen_find_matching_rule rules path = find_rule rules path /\
+  PyGen.gen_candidate_locations index_names path = candidates path /\
+  PyGen.gen_canonical_path_segments unq path true = Ok (canon_segs (comps (unq path)) []).
+Proof.
+  intros extract rules url ip fp path unq.
+  exact (conj (Equiv.certauth_process_tie extract rules url ip fp)
+         (conj (Equiv.find_matching_rule_tie rules path)
+         (conj (Equiv.candidate_locations_tie path) (Equiv.canonical_segments_clamp_tie unq path)))).
+Qed.
+Print Assumptions C05_code_tie.
